@@ -60,6 +60,29 @@ func (m *MessageCopyFromGenerator) GenerateFields(g *j.Group) {
 		g.Add(j.Id("obj." + m).Op("=").Nil())
 	}
 
+	// The fields of an embedded message are part of this message, but its oneOf groups are not
+	// listed in OneOfNames: reset them as well (through the embedded parent, if it is there)
+	reset := make(map[string]struct{})
+	for _, n := range m.OneOfNames {
+		reset[n] = struct{}{}
+	}
+	for _, f := range m.Fields {
+		if f.OneOfName == "" {
+			continue
+		}
+		if _, ok := reset[f.OneOfName]; ok {
+			continue
+		}
+		reset[f.OneOfName] = struct{}{}
+		if f.ParentIsOptionalEmbed {
+			g.Add(j.If(j.Id("obj." + f.ParentIsOptionalEmbedFieldName).Op("!=").Nil()).Block(
+				j.Id("obj." + f.OneOfName).Op("=").Nil(),
+			))
+		} else {
+			g.Add(j.Id("obj." + f.OneOfName).Op("=").Nil())
+		}
+	}
+
 	for _, f := range m.Fields {
 		g.Add(NewFieldCopyFromGenerator(f, m.i).Generate())
 	}
